@@ -468,7 +468,7 @@ def _discharge_par(E, obs, tier, jobs, log, inproc_ms, timeout, solvers, refine)
                     if lo >= len(todo):
                         break
                     mine = list(enumerate(todo))[lo:lo + chunk]
-                    s1 = _discharge(E, [o for _, o in mine], tier, 4, None, inproc_ms, timeout, solvers, refine)
+                    s1 = _discharge(E, [o for _, o in mine], tier, 2, None, inproc_ms, timeout, solvers, refine)
                     res += [(i, o.status, o.solver, o.time, o.model, o.note) for i, o in mine]
                     st["inproc"] += s1["inproc"]
                     st["portfolio"] += s1["portfolio"]
